@@ -215,6 +215,22 @@ impl Collector {
 }
 
 
+//--- Access for the verification harness
+
+#[cfg(feature = "verif-hooks")]
+impl Collector {
+    /// The local directory of the module of `uri`.
+    pub fn verif_module_path(&self, uri: &uri::Rsync) -> PathBuf {
+        self.working_dir.module_path(Module::from_uri(uri).as_ref())
+    }
+
+    /// The local path of the file for `uri`.
+    pub fn verif_uri_path(&self, uri: &uri::Rsync) -> PathBuf {
+        self.working_dir.uri_path(uri)
+    }
+}
+
+
 //------------ Run -----------------------------------------------------------
 
 /// Using the rsync collector during a validation run.
@@ -270,10 +286,12 @@ impl<'a> Run<'a> {
         let module = Module::from_uri(uri);
 
         // If it is already up-to-date, return.
+        #[cfg(feature = "verif-hooks")] crate::verif::point("rsync.check");
         if self.updated.read().contains(module.as_ref()) {
             return
         }
 
+        #[cfg(feature = "verif-hooks")] crate::verif::point("rsync.getm");
         // Get a clone of the (arc-ed) mutex. Make a new one if there isn’t
         // yet.
         let mutex = {
@@ -284,11 +302,14 @@ impl<'a> Run<'a> {
         
         // Acquire the mutex. Once we have it, see if the module is up-to-date
         // which happens if someone else had it first.
+        #[cfg(feature = "verif-hooks")] crate::verif::point(&format!("rsync.lock {:p}", Arc::as_ptr(&mutex)));
         let _lock = mutex.lock();
+        #[cfg(feature = "verif-hooks")] crate::verif::point("rsync.locked");
         if self.updated.read().contains(module.as_ref()) {
             return
         }
 
+        #[cfg(feature = "verif-hooks")] crate::verif::point("rsync.fetch");
         let mut log = LogBookWriter::new(
             self.collector.log_repository_issues.then(|| {
                 format!("rsync {}: ", module)
@@ -313,13 +334,16 @@ impl<'a> Run<'a> {
             self.metrics.lock().push(metrics);
         }
 
+        #[cfg(feature = "verif-hooks")] crate::verif::point("rsync.fetched");
         // Insert into updated map no matter what. This needs to happen
         // before removing from running, or else a thread arriving in between
         // would create a new mutex and update the module a second time.
         self.updated.write().insert(module.clone().into_owned());
 
+        #[cfg(feature = "verif-hooks")] crate::verif::point("rsync.between");
         // Remove from running.
         self.running.write().remove(module.as_ref());
+        #[cfg(feature = "verif-hooks")] crate::verif::point("rsync.done");
     }
 
     /// Loads the file for the given URI.
